@@ -5,13 +5,14 @@ Record C19_case := {
   c19_tbl : vtable;              (* version table before vacuum                         *)
   c19_deleted : list (pk * Z);   (* (key, tx) of the version objects in session.deleted *)
   c19_after : vtable;            (* version table after vacuum + commit                 *)
+  c19_again : bool;              (* a SECOND vacuum + commit changed the table (C19_second_vacuum_deletes_nothing) *)
   c19_exc : bool }.
 
 Definition id_in (ids : list (pk * Z)) (r : vrow) : bool :=
   existsb (fun i => pk_eqb (fst i) (vkey r) && (snd i =? vtx r)) ids.
 
 Definition C19_corr (c : C19_case) : bool :=
-  negb (c19_exc c) &&
+  negb (c19_exc c) && negb (c19_again c) &&
   let d := vacuum_deleted (c19_tbl c) in
   (length d =? length (c19_deleted c))%nat &&
   forallb (id_in (c19_deleted c)) d &&
